@@ -46,6 +46,60 @@ Definition wf_cdecl (C : cdecl) : bool :=
                      || (String.eqb (str_lower (f_name (snd kf))) (fst kf) && str_in (fst kf) ci)) fs &&
   nodupb (map (fun kf => f_name (snd kf)) fs).
 
+(* identity of values: structural equality, element by element (sets too) *)
+Fixpoint ident (a b : pyval) {struct a} : bool :=
+  let fix lst (xs ys : list pyval) {struct xs} : bool :=
+    match xs, ys with
+    | [], [] => true
+    | x :: xr, y :: yr => ident x y && lst xr yr
+    | _, _ => false
+    end in
+  let fix kvl (xs ys : list (pyval * pyval)) {struct xs} : bool :=
+    match xs, ys with
+    | [], [] => true
+    | (k, v) :: xr, (k', v') :: yr => ident k k' && ident v v' && kvl xr yr
+    | _, _ => false
+    end in
+  let fix skvl (xs ys : list (string * pyval)) {struct xs} : bool :=
+    match xs, ys with
+    | [], [] => true
+    | (k, v) :: xr, (k', v') :: yr => String.eqb k k' && ident v v' && skvl xr yr
+    | _, _ => false
+    end in
+  match a, b with
+  | PNone, PNone => true
+  | PBool x, PBool y => Bool.eqb x y
+  | PInt x, PInt y => (x =? y)%Z
+  | PFlt x, PFlt y => flt_eqb x y
+  | PDec x, PDec y => dec_eqb x y
+  | PStr x, PStr y => String.eqb x y
+  | PBytes x, PBytes y => String.eqb x y
+  | PList x, PList y => lst x y
+  | PTuple x, PTuple y => lst x y
+  | PSet x, PSet y => lst x y
+  | PFrozen x, PFrozen y => lst x y
+  | PDict x, PDict y => kvl x y
+  | PInst c x, PInst c' y => Nat.eqb c c' && skvl x y
+  | PEnumV e i, PEnumV e' i' => Nat.eqb e e' && Nat.eqb i i'
+  | PCls c, PCls c' => Nat.eqb c c'
+  | PObj t, PObj t' => Nat.eqb t t'
+  | _, _ => false
+  end.
+
+(* Two values given for the same field under different keys are either different (a conflict) or
+   the same object for all that matters: `==` between them is identity.  Inputs where 1 and 1.0 or
+   True, or two NaNs, are given for one field are outside the strategy theorem (and recorded as a
+   finding: the strategies then parse different representatives). *)
+Definition coherentb (C : cdecl) (data : sdata) : bool :=
+  forallb (fun e1 => forallb (fun e2 =>
+    String.eqb (fst e1) (fst e2)
+    || match get_field_key C (fst e1), get_field_key C (fst e2) with
+       | Some k1, Some k2 =>
+           negb (String.eqb k1 k2)
+           || ((negb (py_eq (snd e1) (snd e2)) || ident (snd e1) (snd e2)) && py_eq (snd e1) (snd e1))
+       | _, _ => true
+       end) data) data.
+
 Section Contract.
 Variable tr : options -> Z -> ty -> pyval -> M pyval.
 Variable C : cdecl.
